@@ -87,8 +87,11 @@ theorem visit_logIn (ops : Ops) (bi : List (String × Val)) : ∀ (tbl : Tbl) (e
       split
       · exact LogIn.pure _ _
       · exact LogIn.bind (LogIn.record i _ (by simp)) (fun _ => LogIn.pure _ _)
-  | tbl, .comp i targets inner => by
+  | tbl, .comp i targets first inner => by
       simp only [visit, allIds]
+      have hfirst : LogIn (⟨(visit ops bi tbl first).log, .ok ()⟩ : VRes Unit) (allIds first) :=
+        visit_logIn ops bi tbl first
+      refine LogIn.bind (hfirst.mono (by simp +contextual)) (fun _ => ?_)
       refine LogIn.bind ((harvest_logIn ops bi (tbl.shadow targets) inner).mono (by simp +contextual)) (fun _ => ?_)
       split
       · exact LogIn.pure _ _
